@@ -1,4 +1,4 @@
-CONSTANTS Parts = {"search", "special", "invoc", "pairs", "cycles", "data", "laws", "codefile"}  ContentLen = 0  Slices = 4  Slice = 2
+CONSTANTS Parts = {"search", "special", "invoc", "virt", "pairs", "cycles", "data", "laws", "codefile"}  ContentLen = 0  Slices = 4  Slice = 2
 INIT Init
 NEXT Next
 INVARIANTS Inv Laws Emit
